@@ -109,6 +109,7 @@ func c23Alphabet() []c23Op {
 		{Kind: "CreateProcessing", Proc: "P1", Count: 2},
 		{Kind: "CreateProcessing", Proc: "P1", Count: 3},
 		{Kind: "CreateProcessing", Proc: "P2", Count: 1},
+		{Kind: "CreateProcessing", Proc: "P3", Count: 3},
 		{Kind: "DeleteProcessing", Proc: "P1"},
 		{Kind: "DeleteProcessing", Proc: "P2"},
 	}
@@ -120,6 +121,8 @@ func c23Processing(name string) *coretypes.Processing {
 		return &coretypes.Processing{Appname: "a", Entryname: "web", Nodename: "n1", Ident: "i"}
 	case "P2":
 		return &coretypes.Processing{Appname: "ab", Entryname: "web", Nodename: "n11", Ident: "i"}
+	case "P3": // a second deployment of the same entrypoint on the same node (two markers to be summed)
+		return &coretypes.Processing{Appname: "a", Entryname: "web", Nodename: "n1", Ident: "j"}
 	}
 	return nil
 }
@@ -750,7 +753,7 @@ func c23Run(t *testing.T, c *vcore.Ctx) {
 	alpha := c23Alphabet()
 	c.Bound("depth", depth)
 	c.Bound("mutating_operations", len(alpha))
-	c.Bound("universe", "pods {p,q}; nodes {n1,n11} (plain / certificates / labels k=v / test); workloads {w1 of app a on n1, w2 of app ab on n11, relabelled, moved to the other node}; processing idents {a/web/n1/i, ab/web/n11/i}")
+	c.Bound("universe", "pods {p,q}; nodes {n1,n11} (plain / certificates / labels k=v / test); workloads {w1 of app a on n1, w2 of app ab on n11, relabelled, moved to the other node}; processing idents {a/web/n1/i, a/web/n1/j, ab/web/n11/i}")
 	c.SetRule("explicit-state BFS from the empty store over the real etcd store (in-memory etcd) and the real Redis store (miniredis) in lock-step: every transition applies one of the mutating Store calls (AddPod, RemovePod, AddNode x5 variants, RemoveNode, UpdateNodes, SetNodeStatus ttl in {-1,10}, AddWorkload with/without processing and relabelled/moved duplicates, UpdateWorkload, RemoveWorkload, SetWorkloadStatus ttl in {0,10}, CreateProcessing, DeleteProcessing) to both stores; after every transition the whole read alphabet (GetPod, GetAllPods, GetNode, GetNodes, GetNodesByPod by pod/labels/All, LoadNodeCert, GetNodeStatus, GetWorkload(s), GetWorkloadStatus, ListWorkloads by app/entry/node/limit/labels, ListNodeWorkloads, GetDeployStatus) runs on both and is compared entry by entry (limited lists by size, errors only as error/no error); states are de-duplicated on the pair of canonical read-backs plus the raw key dumps; a state whose read-backs differ is reported at the step that made them differ and not expanded; non-trivial = distinct reachable state with at least one entity")
 	c.Assume("etcd is the in-memory model memetcd (bound to the embedded etcd by ./check memetcd-conformance); Redis is miniredis; no time passes during a history (expiry is C25's subject)")
 	w := &c23World{t: t, c: c, b: b, alpha: alpha, report: true}
